@@ -246,7 +246,9 @@ def check_analyzer_quick(env, label, circ, maxp):
     for k in (range(0, maxp + 1) if m else [0]):       # vacuum input included; a circuit without user-visible modes has exactly one input: the empty state
         ins_ = fock.fock(m, k)
         # post-selection shapes: none, rule "mode 0 holds <=1 photon", predicate
-        for ps_label, ps in ((("none", None), ("rule", _rule(m)), ("fn", (lambda s: s[m - 1] == 0))) if m else (("none", None),)):
+        first = lw.State([1] + [0] * (m - 1)) if m else None
+        for ps_label, ps in ((("none", None), ("rule", _rule(m)), ("fn", (lambda s: s[m - 1] == 0)),
+                              ("fn-state", (lambda s: isinstance(s, lw.State) and s != first))) if m else (("none", None),)):
             an = emulator.Analyzer(circ)
             if ps is not None:
                 an.post_selection = ps
@@ -291,7 +293,8 @@ def check_analyzer_quick(env, label, circ, maxp):
                 if len(keep) >= 2:
                     exp = {}
                     for i in reversed(keep):
-                        exp[lw.State(ins_[i])] = lw.State(outs_l[(2 * i + 1) % len(outs_l)])
+                        e_ = lw.State(outs_l[(2 * i + 1) % len(outs_l)])
+                        exp[lw.State(ins_[i])] = e_ if i % 2 else [e_, lw.State(list(e_.s))]      # a list naming the same expected output twice counts it once
                     an2 = emulator.Analyzer(circ)
                     res2 = an2.analyze([lw.State(ins_[i]) for i in keep], expected=exp)
                     tot_err = env.const(0)
@@ -361,7 +364,8 @@ def _ps_ok(ps, v):
     if ps is None:
         return True
     if callable(ps) and not hasattr(ps, "validate"):
-        return bool(ps(list(v)))
+        import lightworks as lw
+        return bool(ps(lw.State(list(v))))        # predicates receive State objects, as documented
     return ps.validate(list(v))
 
 
